@@ -6,7 +6,7 @@ from ..core import Part
 
 PROPERTY = "C07"
 RULE = ("enum: every +/-/0 pattern of length 1..9 (quick) / 1..11 (thorough), spelled with seed-chosen residues of "
-        "each class; hyp: sequences of all composition classes up to 300 residues, each with an independent "
+        "each class; hyp: sequences of all composition classes up to 300 (quick) / 500 (thorough) residues (half of them, <=60 residues, after a generated warm-up history of other API calls on the same object), each with an independent "
         "respelling. Oracle: (1/N) sum_{m>n} q_m q_n sqrt(m-n) with math.fsum, tolerance 1e-9 relative; exactly 0 "
         "with fewer than two charged residues; respelling leaves the value unchanged. Non-trivial: at least two "
         "charged residues; distinct by sequence.")
@@ -19,7 +19,7 @@ def check_seq(ctx, case):
     pat = ref.pattern(seq)
     ncharged = sum(1 for q in pat if q)
     ctx.count(case, nontrivial=ncharged >= 2, classes=gens.classify(seq))
-    got = util.sp(seq).get_SCD()
+    got = util.spw(seq, case).get_SCD()
     want = ref.scd(pat)
     if ncharged < 2:
         ctx.check(got == 0, "zero", "SCD must be exactly 0 with <2 charged residues, got %r" % (got,), case)
@@ -38,9 +38,10 @@ def enum_cases(tier, seed):
 
 @st.composite
 def hyp_case(draw, max_len):
-    s = draw(gens.sequences(max_len=max_len))
+    warm = draw(gens.warmups())
+    s = draw(gens.sequences(max_len=60 if warm else max_len))
     alt = draw(gens.spelled(ref.pattern(s)))
-    return {"seq": s, "respell": alt}
+    return {"seq": s, "respell": alt, "warm": warm}
 
 
 def parts(tier):
@@ -48,8 +49,8 @@ def parts(tier):
         Part("enum-patterns", "enum", check=check_seq, cases=enum_cases, exhaustive=True,
              shards={"quick": 8, "thorough": 16}),
         Part("hyp-sequences", "hyp", check=check_seq,
-             strategy=lambda t: hyp_case(80 if t == "quick" else 300),
-             examples={"quick": 6400, "thorough": 32000}, shards={"quick": 4, "thorough": 16}),
+             strategy=lambda t: hyp_case(300 if t == "quick" else 500),
+             examples={"quick": 6400, "thorough": 32000}, shards={"quick": 16, "thorough": 16}),
     ]
 
 TECHNIQUE = "exhaustive enumeration of short charge patterns + Hypothesis property testing against an independent fsum reference (differential oracle) and a respelling metamorphic relation"
